@@ -140,6 +140,19 @@ func (c *ctx) runRefill(s *spec, rec0 string, ops []refillOp) {
 				return
 			}
 			last, lastRecs, haveProfile = items, recs, true
+		case "write": // an earlier Write of the object (its result is dropped): later Writes must not replay it
+			if _, oc := encode(s, p); !oc.OK() {
+				rep.Fail("property", s.name+".Write:panic", vh.Clip(oc.Panic, 100), rc)
+				return
+			}
+			rep.Count("rewrite:write-in-history")
+		case "newtx": // the pack's transaction REPLACED by another record object
+			txs := specOf("TxRecord")
+			p.(*pack.ProfilePack).Transaction = fromRec(txs, op.Rec).(*service.TxRecord)
+			m := dump(p, s)
+			for _, k := range sortedKeys(m) {
+				lines = append(lines, "A!"+k+"="+m[k])
+			}
 		case "stack":
 			p.(*pack.ErrorSnapPack1).SetStack(op.Ints)
 			lastStack, haveStack = op.Ints, true
@@ -179,6 +192,9 @@ func (c *ctx) runRefill(s *spec, rec0 string, ops []refillOp) {
 				}
 			} else {
 				assignFrom(p, s, op.Rec)
+				if s.fam == "pack" { // the blob fields were assigned directly: no SetProfile / SetStack content to expect
+					haveProfile, haveStack = false, false
+				}
 			}
 			m := dump(p, s)
 			for _, k := range sortedKeys(m) {
@@ -219,6 +235,16 @@ func (c *ctx) runRefill(s *spec, rec0 string, ops []refillOp) {
 			if !oc.OK() || intsText(got) != intsText(lastStack) {
 				ok = false
 				rep.Fail("property", "ErrorSnapPack1.SetStack:refill", fmt.Sprintf("the stack last set was %s, the decoded pack holds %s", vh.Clip(intsText(lastStack), 40), vh.Clip(intsText(got), 40)), rc)
+			}
+		}
+		// … and every field of the decoded pack is the CURRENT content (a Write that replays what an earlier
+		// Write produced shows here: stale transaction, current steps)
+		if ok {
+			got := dump(d.obj, s)
+			if bad := diffFields(carried(s.name, dump(p, s)), got); len(bad) > 0 {
+				ok = false
+				rep.Fail("property", s.name+".Write:stale-after-mutation",
+					fmt.Sprintf("after write / mutate / write the decoded pack does not hold the current content: %s", vh.Clip(strings.Join(bad, ","), 100)), rc)
 			}
 		}
 	} else {
@@ -363,6 +389,43 @@ func (c *ctx) replayRefillStream(items []item, order []int) {
 	c.runRefillStream(items[:n], items[n:])
 }
 
+// genRewrite: write → mutate every part → write again on ONE object.
+func genRewrite(c *ctx, r *vh.Rng, s *spec) {
+	p := newFilled(r, s, false)
+	if pp, ok := p.(*pack.ProfilePack); ok {
+		shapeTx(r, pp.Transaction, r.Intn(32))
+	}
+	var ops []refillOp
+	if s.fam == "pack" && r.Bool() {
+		ops = append(ops, profileOp(r))
+	}
+	rounds := 1 + r.Intn(2)
+	for k := 0; k < rounds; k++ {
+		ops = append(ops, refillOp{Kind: "write"})
+		// mutate: fields changed in place, the transaction replaced, the steps replaced
+		q := newFilled(r, s, false)
+		if qq, ok := q.(*pack.ProfilePack); ok {
+			shapeTx(r, qq.Transaction, r.Intn(32))
+		}
+		switch {
+		case s.name == "ProfilePack" && r.Chance(40):
+			t := newFilled(r, specOf("TxRecord"), false).(*service.TxRecord)
+			shapeTx(r, t, r.Intn(32))
+			ops = append(ops, refillOp{Kind: "newtx", Rec: replayRec(t, specOf("TxRecord"))})
+		default:
+			ops = append(ops, refillOp{Kind: "assign", Rec: replayRec(q, s)})
+		}
+		if s.fam == "pack" && r.Chance(60) {
+			ops = append(ops, profileOp(r))
+		}
+		if s.name == "ErrorSnapPack1" && r.Bool() {
+			ops = append(ops, refillOp{Kind: "stack", Ints: genInts(r, false)})
+		}
+	}
+	c.rep.Count("rewrite:" + s.name)
+	c.runRefill(s, replayRec(p, s), ops)
+}
+
 func genRefill(c *ctx, r *vh.Rng) {
 	n := 150
 	if c.env.Thorough {
@@ -384,6 +447,15 @@ func genRefill(c *ctx, r *vh.Rng) {
 		}
 		for i := 0; i < m; i++ {
 			genRefillRecord(c, r, s)
+		}
+	}
+	for _, s := range specs { // write → mutate → write
+		m := n / 5
+		if s.fam == "pack" || s.name == "TxRecord" {
+			m = n
+		}
+		for i := 0; i < m; i++ {
+			genRewrite(c, r, s)
 		}
 	}
 	for i := 0; i < n; i++ {
